@@ -54,15 +54,30 @@ var witnesses = []witness{
 		observed: [][]string{{"n:1", "N", "N"}, {"n:2", "n:10", "n:10"}}},
 	{id: "C08-window-range-desc",
 		setup:    []string{wt, "INSERT INTO t VALUES (1,1,1,10,'a'),(2,1,2,20,'a')"},
+		query:    "SELECT id, SUM(v) OVER (ORDER BY o DESC RANGE BETWEEN UNBOUNDED PRECEDING AND CURRENT ROW) FROM t",
+		defined:  [][]string{{"n:1", "n:30"}, {"n:2", "n:20"}},
+		observed: [][]string{{"n:1", "f:30"}, {"n:2", "f:30"}}},
+	{id: "C08-window-range-desc",
+		setup:    []string{wt, "INSERT INTO t VALUES (1,1,1,10,'a'),(2,1,2,20,'a'),(3,1,3,40,'a')"},
+		query:    "SELECT id, SUM(v) OVER (ORDER BY o DESC RANGE BETWEEN 1 PRECEDING AND CURRENT ROW) FROM t",
+		defined:  [][]string{{"n:1", "n:30"}, {"n:2", "n:60"}, {"n:3", "n:40"}},
+		observed: [][]string{{"n:1", "f:70"}, {"n:2", "f:70"}, {"n:3", "f:70"}}},
+	{id: "C08-window-range-null-key",
+		setup:    []string{wt, "INSERT INTO t VALUES (1,1,NULL,10,'a'),(2,1,1,20,'a'),(3,1,2,40,'a')"},
+		query:    "SELECT id, MAX(v) OVER (ORDER BY o RANGE BETWEEN UNBOUNDED PRECEDING AND CURRENT ROW) FROM t",
+		defined:  [][]string{{"n:1", "n:10"}, {"n:2", "n:20"}, {"n:3", "n:40"}},
+		observed: [][]string{{"n:1", "n:40"}, {"n:2", "n:40"}, {"n:3", "n:40"}}},
+	{id: "C08-window-default-frame-peers",
+		setup:    []string{wt, "INSERT INTO t VALUES (1,1,1,10,'a'),(2,1,2,20,'a')"},
 		query:    "SELECT id, SUM(v) OVER (ORDER BY o DESC) FROM t",
 		defined:  [][]string{{"n:1", "n:30"}, {"n:2", "n:20"}},
 		observed: [][]string{{"n:1", "f:30"}, {"n:2", "f:30"}}},
-	{id: "C08-window-range-null-key",
+	{id: "C08-window-default-frame-peers",
 		setup:    []string{wt, "INSERT INTO t VALUES (1,1,NULL,10,'a'),(2,1,1,20,'a'),(3,1,2,40,'a')"},
 		query:    "SELECT id, MAX(v) OVER (ORDER BY o) FROM t",
 		defined:  [][]string{{"n:1", "n:10"}, {"n:2", "n:20"}, {"n:3", "n:40"}},
 		observed: [][]string{{"n:1", "n:40"}, {"n:2", "n:40"}, {"n:3", "n:40"}}},
-	{id: "C08-window-default-frame-multikey-peers",
+	{id: "C08-window-default-frame-peers",
 		setup:    []string{wt, "INSERT INTO t VALUES (1,1,1,10,'a'),(2,1,1,20,'a')"},
 		query:    "SELECT id, COUNT(*) OVER (ORDER BY o, id) FROM t",
 		defined:  [][]string{{"n:1", "n:1"}, {"n:2", "n:2"}},
